@@ -29,6 +29,9 @@ func symIntVar(fr *frame, name string, k types.BasicKind) value {
 	v := fr.i.ctx.NewVar(name, IntSort)
 	lo, hi := kindRange(k)
 	fr.i.ctx.Constrain(And(Ge(v, IntConst(lo)), Le(v, IntConst(hi))))
+	if lo.Sign() == 0 {
+		v.WithHi(hi)
+	}
 	return symInt{v, k}
 }
 
